@@ -206,5 +206,5 @@ int main(int argc, char** argv) {
 #else
   reg_roundtrips<TT_N>();
 #endif
-  return tracer_main(argc, argv, "Require Import TensorIndex TensorTactics C23Spec.\n");
+  return tracer_main(argc, argv, "Require Import TensorIndex TensorTactics C23Spec C23Tactics.\n");
 }
